@@ -271,6 +271,120 @@ func c14router(minDelay, maxJitter time.Duration, n, bound int, slow ...time.Dur
 
 // c14twoRouters: a LAN router behind the root, both with a minimum delay: each counts from
 // the moment the datagram entered *it*.
+// c14restart: the router is stopped and started again while a datagram may still be on its way (and once more
+// idle).  Everything written after a Start has returned (and before the next Stop is called) is "written
+// while the router is running": it must be forwarded, not before its delay.  Datagrams written before a Stop
+// may or may not survive it, but never arrive twice or out of order.
+func c14restart(minDelay time.Duration, bound int) *explore.Scenario {
+	sc := &explore.Scenario{Name: fmt.Sprintf("router minDelay=%v stopped and restarted", minDelay), Bound: bound}
+	sc.Cfg.Horizon = 30 * time.Second
+	sc.Make = func() (func(), func(*zzvsched.Exec) (string, *explore.Violation)) {
+		rec := vnet.ZZNewRecNIC("10.0.0.2")
+		sentAt := map[string]time.Duration{}
+		mustArrive := map[string]bool{}
+		finished := false
+		var script []string
+		var stopErrs []string
+		body := func() {
+			r, err := vnet.NewRouter(&vnet.RouterConfig{CIDR: "10.0.0.0/24", MinDelay: minDelay, LoggerFactory: logging.NewDefaultLoggerFactory()})
+			if err != nil {
+				panic(err)
+			}
+			n1, _ := vnet.NewNet(&vnet.NetConfig{StaticIPs: []string{"10.0.0.1"}})
+			if err := r.AddNet(n1); err != nil {
+				panic(err)
+			}
+			if err := r.AddNet(rec); err != nil {
+				panic(err)
+			}
+			if err := r.Start(); err != nil {
+				panic(err)
+			}
+			c, err := n1.ListenUDP("udp", &net.UDPAddr{IP: net.ParseIP("10.0.0.1"), Port: 1000})
+			if err != nil {
+				panic(err)
+			}
+			dst := &net.UDPAddr{IP: net.ParseIP("10.0.0.2"), Port: 2000}
+			k := 0
+			send := func(must bool) {
+				tag := fmt.Sprintf("p%d", k)
+				k++
+				sentAt[tag] = zzvsched.Elapsed()
+				mustArrive[tag] = must
+				if _, err := c.WriteTo([]byte(tag), dst); err != nil {
+					panic(err)
+				}
+			}
+			for round := 0; round < 2; round++ {
+				// one datagram that may still be in flight when Stop is called, or none
+				inflight := zzvsched.Choose(2) == 1
+				if inflight {
+					script = append(script, "send")
+					send(false)
+				}
+				if zzvsched.Choose(2) == 1 {
+					script = append(script, "settle")
+					zzvsched.WaitQuiet(minDelay + time.Millisecond)
+				}
+				script = append(script, "Stop")
+				if err := r.Stop(); err != nil {
+					stopErrs = append(stopErrs, err.Error())
+				}
+				script = append(script, "Start")
+				if err := r.Start(); err != nil {
+					stopErrs = append(stopErrs, "Start: "+err.Error())
+				}
+				script = append(script, "send")
+				send(true)
+				zzvsched.WaitQuiet(minDelay + time.Millisecond)
+			}
+			finished = true
+		}
+		check := func(ex *zzvsched.Exec) (string, *explore.Violation) {
+			var got []string
+			for _, g := range rec.Got {
+				got = append(got, string(g.Payload))
+			}
+			out := fmt.Sprintf("%v got=%v", script, got)
+			pre := fmt.Sprintf("router minDelay=%v, %v: ", minDelay, script)
+			if len(ex.Panics) > 0 {
+				return out, &explore.Violation{Sig: "C14 panic router", Msg: pre + "panic: " + ex.Panics[0].Value + "\n" + ex.Panics[0].Stack}
+			}
+			if ex.HorizonHit {
+				return out + " HORIZON", nil
+			}
+			if !finished {
+				return out, &explore.Violation{Sig: "C14 write-blocked router", Msg: pre + fmt.Sprintf("the script blocked for good: %v", ex.Parked)}
+			}
+			if len(stopErrs) > 0 {
+				return out, &explore.Violation{Sig: "C14 restart-error router", Msg: pre + fmt.Sprintf("Stop/Start of a running/stopped router failed: %v", stopErrs)}
+			}
+			last := -1
+			seen := map[string]bool{}
+			for _, g := range rec.Got {
+				tag := string(g.Payload)
+				var i int
+				if _, err := fmt.Sscanf(tag, "p%d", &i); err != nil || i <= last {
+					return out, &explore.Violation{Sig: "C14 order-or-duplicate router", Msg: pre + fmt.Sprintf("forwarded sequence %v is not an in-order duplicate-free part of the writes", got)}
+				}
+				last = i
+				seen[tag] = true
+				if g.At < sentAt[tag]+minDelay {
+					return out, &explore.Violation{Sig: "C14 early router", Msg: pre + fmt.Sprintf("%s entered the router no earlier than %v and was forwarded at %v, sooner than the minimum delay", tag, sentAt[tag], g.At)}
+				}
+			}
+			for tag, must := range mustArrive {
+				if must && !seen[tag] {
+					return out, &explore.Violation{Sig: "C14 not-forwarded router", Msg: pre + fmt.Sprintf("%s was written after Start had returned and before any further Stop, yet it was never forwarded (got %v)", tag, got)}
+				}
+			}
+			return out, nil
+		}
+		return body, check
+	}
+	return sc
+}
+
 func c14twoRouters(d1, d2 time.Duration, n, bound int) *explore.Scenario {
 	sc := &explore.Scenario{Name: fmt.Sprintf("routers lan minDelay=%v -> root minDelay=%v n=%d", d1, d2, n), Bound: bound}
 	sc.Cfg.Horizon = 30 * time.Second
@@ -360,6 +474,7 @@ func init() {
 			// a downstream NIC that takes longer per chunk than the spacing of the arrivals
 			out = append(out, c14router(time.Millisecond, 0, 3, 1, 2*time.Microsecond), c14router(20*time.Millisecond, 0, 3, 1, 30*time.Millisecond))
 			out = append(out, c14twoRouters(time.Millisecond, 20*time.Millisecond, 2, 1), c14twoRouters(10*time.Millisecond, time.Millisecond, 2, 1))
+			out = append(out, c14restart(0, 1), c14restart(time.Millisecond, 1))
 			// several arrival paths at once into an idle filter
 			out = append(out, c14filterConc(0, 2, 1, 2), c14filterConc(500*time.Microsecond, 2, 1, 2), c14filterConc(500*time.Microsecond, 2, 2, 1))
 			if tier == "thorough" {
@@ -368,6 +483,6 @@ func init() {
 			}
 			return out
 		},
-		Rule:        "delay filter: delays {0, 500us, 10ms} x arrival scripts of 3 (thorough 4) datagrams with gaps {0, d/2, d, 2d} x every interleaving of the Run loop, the arrival path and timer expiries within the deviation bound, under legacy and go1.23 channel-timer semantics; 2-3 concurrent arrival paths x 1-2 datagrams into an idle filter (order judged between non-overlapping pushes); router: MinDelay {0,1ms,20ms} x MaxJitter {0,1ms} (jitter draws {0,max-1}) x write gaps x schedules; forwarding stamps are taken in a recording NIC on the virtual clock",
+		Rule:        "delay filter: delays {0, 500us, 10ms} x arrival scripts of 3 (thorough 4) datagrams with gaps {0, d/2, d, 2d} x every interleaving of the Run loop, the arrival path and timer expiries within the deviation bound, under legacy and go1.23 channel-timer semantics; 2-3 concurrent arrival paths x 1-2 datagrams into an idle filter (order judged between non-overlapping pushes); router: MinDelay {0,1ms,20ms} x MaxJitter {0,1ms} (jitter draws {0,max-1}) x write gaps x schedules; the router stopped and started again twice, with and without a datagram still on its way (what is written after Start returned must be forwarded); forwarding stamps are taken in a recording NIC on the virtual clock",
 		Assumptions: []string{"a thread stalled for an arbitrary time is one deviation (the clock may pass a deadline while the loop has not run)", "time.Minute idle re-arms lie beyond the 30 s horizon and never fire"}})
 }
